@@ -11,6 +11,7 @@
 
 
 
+import copy
 import importlib
 import os
 from pathlib import Path
@@ -113,6 +114,8 @@ class ScenarioManagerSd(ScenarioManager):
 
         for name, scenario in scenario_dictionary.items():
 
+            # the manager works on its own copy of the definition: the caller may hand the same dictionary to another manager
+            scenario = copy.deepcopy(scenario)
 
             # ScenarioManager -> "scenarios" -> scenario_name -> "constants" (Update via base_constants)
             if len(self.base_constants.keys()) > 0:
